@@ -9,7 +9,14 @@
      format_int / atoi    strconv.FormatInt / strconv.Atoi
 
    Stdlib + JV.Base only, no axioms; everything computes under vm_compute and extracts.
-   Validated against the real functions by /verif/harness/vectors/decimal/main.go.
+   Validated against the real functions by /verif/harness/vectors/decimal/main.go
+   (109,886 vectors).  Proved in Proofs/DecimalProofs.v: parse_float's numeric core is the
+   correctly rounded (nearest-even) binary64 of the exact decimal; parse_float (format x) = x
+   for the g / e / f / JSON formats on every valid finite non-zero x; atoi (format_int z 10) = z.
+
+   Cost under vm_compute: about 1-2 ms per call for ordinary magnitudes, up to ~10 ms near
+   1e±308; format_float_fixed on huge values (1e300) needs ~0.1 s (one long division per
+   decimal digit).
 
    Documented deviations from Go:
    * parse_float returns PFSyntax for the spellings "inf", "infinity", "nan" (any case, any
@@ -257,7 +264,8 @@ Definition shortest_digits (x : f64) : string * Z :=
   | _ => (EmptyString, 0)
   end.
 
-(* the search of shortest_digits found a candidate that parse_float's rounding reads back *)
+(* the search of shortest_digits found a candidate that parse_float's rounding reads back;
+   always true on valid binary64 values (Proofs/DecimalProofs.v, shortest_digits_ok_valid) *)
 Definition shortest_digits_ok (x : f64) : bool :=
   match x with
   | S754_finite s m e =>
@@ -273,7 +281,8 @@ Definition shortest_digits_ok (x : f64) : bool :=
 (* 3. strconv.FormatFloat                                                               *)
 (* ------------------------------------------------------------------------------------ *)
 
-(* 2 <= base <= 36 *)
+(* strconv.FormatInt(z, base), 2 <= base <= 36 (section 5; defined here because the
+   exponent of %e is printed with it) *)
 Definition format_int (z base : Z) : string :=
   if z <? 0 then String "-" (int_digits (S (Z.to_nat (Z.log2 (- z)))) (- z) base EmptyString)
   else int_digits (S (Z.to_nat (Z.log2 z))) z base EmptyString.
